@@ -596,6 +596,8 @@ def al_directed():
     d.append(("start interrupted by close", True, [H, al_call(1, "StartDial", "c1"), L, al_call(2, "Close"), L, L, L, F, al_call(3, "StartAccept", "c2")]))
     d.append(("remote candidates against restart", True, [H, al_call(1, "AddRemoteCandidate", "r1"), al_call(2, "Restart", "c4"), al_call(3, "GetRemoteCandidates")] + [L] * 5 +
               [F, al_call(4, "AddRemoteCandidate", "r2"), al_call(5, "GetRemoteCandidates")]))
+    d.append(("remote credentials set between the two tasks of a start", True, [H, al_call(1, "StartDial", "c1"), al_call(2, "SetRemoteCredentials", "c7"), L, L, L, L, F,
+                                                                          al_call(3, "GetRemoteUserCredentials"), al_call(4, "SetRemoteCredentials", "c8"), al_call(5, "GetRemoteUserCredentials")]))
     d.append(("the caller scribbles over a returned candidate list", True, [al_call(1, "AddRemoteCandidate", "r1"), al_call(2, "AddRemoteCandidate", "r2"), al_call(3, "GetRemoteCandidates"),
                                                                        al_call(4, "GetRemoteCandidates"), al_call(5, "Restart", "c4"), al_call(6, "GetRemoteCandidates")]))
     AH, AF = {"k": "asynchold"}, {"k": "asyncfree"}
